@@ -240,11 +240,61 @@ def minimise(rec, max_steps=60):
     return best
 
 
-def pool_map(fn, items, workers=None):
+def _child(fn, item, conn):
+    import resource
+    try:
+        resource.setrlimit(resource.RLIMIT_AS, (6 * 1024 ** 3, 6 * 1024 ** 3))
+    except (ValueError, OSError):
+        pass
+    try:
+        conn.send(("ok", fn(item)))
+    except MemoryError:
+        conn.send(("err", "MemoryError"))
+    except BaseException as e:  # noqa
+        conn.send(("err", f"{type(e).__name__}: {e}"))
+    finally:
+        conn.close()
+
+
+def pool_map(fn, items, workers=None, task_timeout=120):
+    """fork one child per item (cheap: modules are already imported), at most `workers` at a time; a child that runs
+    longer than task_timeout seconds or exceeds 6 GB is killed and its item reported as {"status": "killed"}"""
     import multiprocessing as mp
     workers = workers or min(14, os.cpu_count() or 4)
-    if len(items) <= 2:
-        return [fn(x) for x in items]
     ctx = mp.get_context("fork")
-    with ctx.Pool(workers, maxtasksperchild=50) as pool:
-        return pool.map(fn, items, chunksize=1)
+    results = [None] * len(items)
+    running = {}
+    nxt = 0
+    while nxt < len(items) or running:
+        while nxt < len(items) and len(running) < workers:
+            parent, child = ctx.Pipe(duplex=False)
+            p = ctx.Process(target=_child, args=(fn, items[nxt], child))
+            p.start()
+            child.close()
+            running[nxt] = (p, parent, time.time())
+            nxt += 1
+        done = []
+        for k, (p, conn, t0) in running.items():
+            if conn.poll(0):
+                try:
+                    tag, val = conn.recv()
+                except (EOFError, OSError):
+                    tag, val = "err", "child died"
+                results[k] = val if tag == "ok" else {"status": "killed", "error": val}
+                p.join()
+                done.append(k)
+            elif not p.is_alive():
+                results[k] = {"status": "killed", "error": f"child exit {p.exitcode}"}
+                p.join()
+                done.append(k)
+            elif time.time() - t0 > task_timeout:
+                p.kill()
+                p.join()
+                results[k] = {"status": "killed", "error": "timeout"}
+                done.append(k)
+        for k in done:
+            running[k][1].close()
+            del running[k]
+        if not done:
+            time.sleep(0.01)
+    return results
